@@ -196,8 +196,33 @@ def run_shard(spec, tier, seed):
             "awkward": lambda s, rows, m: B.mk_awk(s, rows, m and any(B.MOM_SPELL[x] for x in R.field_names(s)), counts=counts),
             "awkwardflat": lambda s, rows, m: B.mk_awk(s, rows, m and any(B.MOM_SPELL[x] for x in R.field_names(s))),
         }
+        # arrays that carry non-coordinate fields (charge, weight) which differ between the two sides: only coordinates
+        # take part in a comparison
+        side = [0]
+
+        def np_extra(s, rows, m):
+            import vector
+            names = R.field_names(s)
+            raw = numpy.zeros(len(rows), dtype=[(nm, numpy.float64) for nm in names] + [("charge", numpy.int64), ("weight", numpy.float64)])
+            for i_, nm in enumerate(names):
+                raw[nm] = [row[i_] for row in rows]
+            side[0] += 1
+            raw["charge"] = numpy.arange(len(rows)) % 3 + 10 * (side[0] % 2)
+            raw["weight"] = 0.5 + side[0] % 2
+            return raw.view(getattr(vector, ("MomentumNumpy" if m else "VectorNumpy") + f"{len(s) + 1}D"))
+
+        def ak_extra(s, rows, m):
+            side[0] += 1
+            return B.mk_awk(s, rows, m and any(B.MOM_SPELL[x] for x in R.field_names(s)), counts=counts,
+                            extra={"charge": numpy.arange(len(rows)) % 3 + 10 * (side[0] % 2)})
+        builders["numpy+extra"] = np_extra
+        builders["awkward+extra"] = ak_extra
         pairings = [("numpy", "numpy"), ("awkward", "awkward"), ("numpy", "awkwardflat"), ("awkwardflat", "numpy")]
-        for (ba, bb), (fa, fb) in itertools.product(pairings, ((True, False), (False, True))):
+        combos = list(itertools.product(pairings, ((True, False), (False, True))))
+        combos += list(itertools.product([("numpy+extra", "numpy+extra"), ("awkward+extra", "awkward+extra"), ("numpy", "numpy")],
+                                         ((True, True), (False, False))))
+        combos += [(("numpy+extra", "numpy"), (False, False)), (("numpy", "numpy+extra"), (True, True))]
+        for (ba, bb), (fa, fb) in combos:
             try:
                 XA = builders[ba](s1, rows_a, fa)
                 XB = builders[bb](s2, rows_b, fb)
@@ -229,7 +254,7 @@ def run_shard(spec, tier, seed):
                 if any(c is None for c in exp_c):
                     continue
                 cf = {"isclose": lambda: XA.isclose(XB, rtol=rtol, atol=atol)}
-                if ba == "numpy" and bb == "numpy":
+                if ba.startswith("numpy") and bb.startswith("numpy"):
                     cf["numpy.isclose"] = lambda: numpy.isclose(XA, XB, rtol=rtol, atol=atol)
                 for fname, f in cf.items():
                     try:
@@ -242,7 +267,7 @@ def run_shard(spec, tier, seed):
                         viol(f"array-isclose-differs-from-object form={fname} pairing={ba}x{bb}", cell, got=got, expected=exp_c,
                              rtol=rtol, atol=atol)
                     af = {"allclose": lambda: XA.allclose(XB, rtol=rtol, atol=atol)}
-                    if ba == "numpy" and bb == "numpy":
+                    if ba.startswith("numpy") and bb.startswith("numpy"):
                         af["numpy.allclose"] = lambda: numpy.allclose(XA, XB, rtol=rtol, atol=atol)
                     if fname == "isclose":
                         for an, f2 in af.items():
